@@ -19,7 +19,7 @@ EXPLANATION = (
     "as carried over (alarm cleared by the loss path), so what was requested on the new connection before its CONNACK is "
     "neither failed nor re-sent; Y-CARRY - that test is 'alarm is None', so the loss path must cancel and reset the alarm "
     "of every entry of each such registry on every path (no early exit from the loop, no skipped entry). NOT decided: the "
-    "release of held-back messages as the window allows. Y-SAME - the resume branch encodes no carried-over request again: what is re-sent is the packet encoded when publish() accepted the message, not the payload object as the caller has left it since. "
+    "release of held-back messages as the window allows. Y-SAME - the resume branch encodes no carried-over request again: what is re-sent is the packet encoded when publish() accepted the message, not the payload object as the caller has left it since. Y-HOOK - the application's onMqttConnectionMade hook runs after the purge / resume, so what it requests is not taken for a leftover. "
     " Y-MARK - nothing but the loss path resets the alarm of an entry that stays registered (alarm is None is the carried-over mark); the refill's first transmission of a held-back request at the CONNACK is neither a failure nor a repeat.")
 ASSUMPTIONS = []
 
